@@ -253,6 +253,38 @@ def _input_mutations(qual: str, s: Summary):
     return out
 
 
+def _only_fresh_arguments(index, sm_, fn: str, pname: str) -> bool:
+    """`fn` is a private module-level function, it is only ever CALLED by name (never passed around), and every call hands it a
+    freshly built display / comprehension / dict(...) / list(...) for `pname`: the object it changes is nobody else's."""
+    if not fn.startswith("_") or "." in fn or fn.startswith("__") or not isinstance(sm_.node, ast.FunctionDef):
+        return False
+    a = sm_.node.args
+    names = [x.arg for x in a.posonlyargs + a.args]
+    if pname not in names + [x.arg for x in a.kwonlyargs]:
+        return False
+    pos = names.index(pname) if pname in names else None
+    calls = 0
+    for m in index.modules.values():
+        called = set()
+        for nd in ast.walk(m.tree):
+            if isinstance(nd, ast.Call) and isinstance(nd.func, ast.Name) and nd.func.id == fn:
+                called.add(id(nd.func))
+                if any(isinstance(x, ast.Starred) for x in nd.args) or any(k.arg is None for k in nd.keywords):
+                    return False
+                v = nd.args[pos] if pos is not None and pos < len(nd.args) else next((k.value for k in nd.keywords if k.arg == pname), None)
+                fresh = isinstance(v, (ast.Dict, ast.List, ast.Set, ast.DictComp, ast.ListComp, ast.SetComp)) or (
+                    isinstance(v, ast.Call) and isinstance(v.func, ast.Name) and v.func.id in ("dict", "list", "set"))
+                if not fresh:
+                    return False
+                calls += 1
+        for nd in ast.walk(m.tree):
+            if isinstance(nd, ast.Name) and nd.id == fn and isinstance(nd.ctx, ast.Load) and id(nd) not in called:
+                return False  # handed on as a value: its callers are not all visible
+            if isinstance(nd, ast.Attribute) and nd.attr == fn:
+                return False
+    return calls > 0
+
+
 _FIXTURE_OK = None
 
 
@@ -364,6 +396,8 @@ def check_shared_state(ctx: Ctx, files: List[str]):
         n3 += 1
         for e, pname, tgt in _input_mutations(sm_.qual, sm_):
             fn = sm_.qual.split(":")[-1]
+            if _only_fresh_arguments(ctx.index, sm_, fn, pname):
+                continue  # a private helper finishing a container every caller builds for it on the spot: nobody else holds that object
             ctx.bad("G.3", sm_.module.relpath, fn, f"{show(e.term)[:70]}",
                     f"{fn} changes its argument `{pname}` in place ({show(tgt)[:60]}): the caller's object is different after the call, so "
                     f"whatever uses it next (or a second call with the same object) sees the altered state", e.lineno)
